@@ -108,7 +108,7 @@ class MiniEval:
                 if e.attr not in mem:
                     raise Unsupported(f"{base}.{e.attr} is not a member")
                 return EV(base, e.attr, mem[e.attr])
-            if base in (self.cls_name, "self", "cls"):
+            if self.cls_name and base in (self.cls_name, "self", "cls"):
                 return self.const(e.attr)
             raise Unsupported(unparse(e))
         if isinstance(e, ast.Dict):
@@ -248,6 +248,8 @@ class MiniEval:
                 v = self.expr(st.value, env)
                 if isinstance(t, ast.Name):
                     env[t.id] = v
+                elif isinstance(t, ast.Subscript) and isinstance(t.value, ast.Name) and isinstance(env.get(t.value.id), dict):
+                    env[t.value.id][self.expr(t.slice, env)] = v
                 elif isinstance(t, ast.Tuple) and all(isinstance(x, ast.Name) for x in t.elts) and isinstance(v, (tuple, list)) and len(v) == len(t.elts):
                     for x, vv in zip(t.elts, v):
                         env[x.id] = vv
@@ -261,6 +263,27 @@ class MiniEval:
                 r = self.block(st.body if self.truth(self.expr(st.test, env)) else st.orelse, env)
                 if r is not None:
                     return r
+                continue
+            if isinstance(st, ast.Assign) and False:
+                pass
+            if isinstance(st, ast.For) and not st.orelse:
+                it = self.expr(st.iter, env)
+                if isinstance(it, dict):
+                    it = list(it.keys())
+                if not isinstance(it, (tuple, list)):
+                    raise Unsupported("loop over a non-literal sequence")
+                for item in it:
+                    if isinstance(st.target, ast.Name):
+                        env[st.target.id] = item
+                    elif isinstance(st.target, ast.Tuple) and all(isinstance(x, ast.Name) for x in st.target.elts) and isinstance(item, (tuple, list)) \
+                            and len(item) == len(st.target.elts):
+                        for x, vv in zip(st.target.elts, item):
+                            env[x.id] = vv
+                    else:
+                        raise Unsupported("loop target")
+                    r = self.block(st.body, env)
+                    if r is not None:
+                        return r
                 continue
             if isinstance(st, ast.Return):
                 return ("return", None if st.value is None else self.expr(st.value, env))
